@@ -303,6 +303,10 @@ def build(repo):
         if not m or defs.get(m.group(1), ('alias',))[0] == 'alias': bad(DATA, 'impl GcTrace for a type not defined here', ty)
         if m.group(1) in names: bad(DATA, 'two impls GcTrace', ty)
         names.append(m.group(1))
+    # a strong view stored inside a traced (heap) type would be a permanent root: refuse
+    for n in names:
+        for t in def_types(defs[n]):
+            if re.search(r'\bGcView\s*<', t): bad(n, 'heap type holds a GcView (strong reference inside the heap)', t)
     cx, rows = Ctx(defs, gc, names), []
     for name, (_, body) in zip(names, impls):
         kind, items = defs[name]
